@@ -324,7 +324,7 @@ func cmdCheck(args []string) int {
 		fmt.Printf("UNDECIDED property=%s: cannot load %s with -tags verif: %v\n", prop, repo, err)
 		return 2
 	}
-	cfg := RunConfig{TimeoutMs: 30000, Workers: 10, RetryFactor: 6}
+	cfg := RunConfig{TimeoutMs: 30000, Workers: 10, RetryFactor: 4}
 	if tier == "thorough" {
 		cfg = RunConfig{TimeoutMs: 120000, Workers: 8, All: true, RetryFactor: 3}
 	}
